@@ -465,6 +465,8 @@ impl TableSpec {
             if !first { pu(&mut out, ","); } first = false;
             id(&mut out, &p.name); op(&mut out, "=");
             if p.split { out.push(tk("split", TK::Name)); }
+            // the explicit spelling of the default mode, for every third pattern (decided by the pattern text: rendering is a function of the spec)
+            else if crate::rng::fnv1a(p.regex.as_bytes()) % 3 == 0 { out.push(tk("match", TK::Name)); }
             out.push(tk(&quote(&p.regex), TK::Str));
         }
         for c in &self.cols {
